@@ -169,7 +169,7 @@ int main()
             if(msg) out << " A=" << hex(s.addr.data(), s.addr.size());
             puts(out.str().c_str());
         }
-        else if(f.size() >= 2 && f[0] == "sc") {
+        else if(f.size() >= 2 && (f[0] == "sc" || f[0] == "xs")) {
             auto tb = unhex(f[1]); tb.push_back(0);
             ExactBuf text(tb);
             Scanned s;
